@@ -617,6 +617,48 @@ func c10Run(rc *core.RunCtx) {
 			}
 		}
 	}
+	// callbacks that mutate the container while a builtin or the VM is working on it
+	rc.Part = "mutating-callbacks"
+	{
+		type cont struct{ name, init string }
+		conts := []cont{{"list", "a = [3, 1, 2, 5, 4]"}, {"list2", "a = [2, 1]"}, {"list1", "a = [1]"}, {"dict", "a = {'x': 1, 'y': 2, 'z': 3}"}, {"set", "a = {1, 2, 3}"}}
+		muts := map[string][]string{
+			"list":  {"del a[1:]", "del a[:]", "del a[-1]", "a[:] = []", "a.append(0) if len(a) < 9 else None", "a.extend([7, 8]) if len(a) < 9 else None", "a[:] = [9, 8, 7, 6, 5, 4, 3] if len(a) < 7 else a", "a.sort()", "a *= 0", "a += [1] if len(a) < 9 else []"},
+			"list2": {"del a[1:]", "del a[:]", "a.append(0) if len(a) < 9 else None"},
+			"list1": {"del a[:]", "a.append(0) if len(a) < 9 else None"},
+			"dict":  {"a['w'] = 0", "del a['x']", "a.clear() if hasattr(a, 'clear') else None"},
+			"set":   {"a.add(9)", "a.add(len(a) + 10) if len(a) < 9 else None"},
+		}
+		cons := []string{
+			"a.sort(key=f)", "a.sort(key=f, reverse=True)", "r = sorted(a, key=f)", "r = max(a, key=f)", "r = min(a, key=f)", "r = list(map(f, a))", "r = list(filter(f, a))",
+			"r = [f(x) for x in a]", "for x in a:\n    f(x)", "r = sum(map(f, a))", "a.extend(map(f, a))", "a[:] = map(f, a)", "a += map(f, a)", "a[::2] = map(f, a)",
+			"r = ','.join(map(str, map(f, a)))", "r = any(map(f, a))", "r = all(map(f, a))", "r = tuple(map(f, a))", "r = set(map(f, a))", "r = list(zip(a, map(f, a)))",
+			"r = list(enumerate(map(f, a)))", "r = {x: f(x) for x in map(str, a)}", "r = {f(x) for x in a}", "p, q = map(f, a)", "p, *q = map(f, a)", "r = (lambda *z: z)(*map(f, a))",
+			"r = f(1) in a", "r = a == [f(x) for x in a]", "r = repr(list(map(f, a)))", "it = iter(a)\nf(0)\nr = list(it)", "it = iter(a)\nnext(it)\nf(0)\nr = list(it)",
+			"g = (f(x) for x in a)\nnext(g)\nf(0)\nr = list(g)", "r = list(reversed(a)) if hasattr(a, '__reversed__') else 0", "r = a[f(0):f(1)]", "a[f(0)] = f(1)", "del a[f(0)]", "r = len(a) + f(len(a))",
+		}
+		for _, ct := range conts {
+			for _, mu := range muts[ct.name] {
+				for _, cn := range cons {
+					if rc.Expired() || rc.Done() {
+						return
+					}
+					if !rc.Take() {
+						continue
+					}
+					src := ct.init + "\ndef f(x):\n    " + mu + "\n    return x\n" + cn + "\n"
+					f := core.Fields{"part": "mutating-callbacks", "container": ct.name, "mutation": mu, "op": strings.SplitN(cn, "\n", 2)[0]}
+					rc.Guard(f, func() string { return src }, func() {
+						err := runSrc(src, py.ExecMode, py.None, py.None, py.None)
+						rc.Eval(outcomeOf(err), src)
+						if rc.WantSample() && rc.Index()%211 == 0 {
+							rc.Sample(map[string]string{"program": src, "outcome": outcomeOf(err)})
+						}
+					})
+				}
+			}
+		}
+	}
 	// setitem with three operands over the reduced universe
 	rc.Part = "ternary"
 	for _, i := range small {
@@ -647,7 +689,7 @@ func init() {
 		ID:    "C10",
 		Level: "model_checking",
 		Rule: "callables = every entry of builtins plus every attribute of every built-in type's dictionary (reached through an instance and through the class) x all argument tuples of arity 0-2 over a universe of ~70 values of every type (None, bools, ints at the word limits and beyond, floats incl. inf/nan/-0.0, complex, str incl. non-BMP, bytes, tuples, lists, dicts, sets, ranges, slices, generators in every state, iterators, functions, methods, classes, instances, modules, exceptions, code, Ellipsis, NotImplemented; thorough adds self-referential containers) - thorough: arity 3 over a 21-value sub-universe - and one keyword argument; " +
-			"every binary/augmented/unary operator, subscript, slice, attribute, call, iteration, format and 30 two-operand statement forms over the universe squared, through the Go API and as compiled source. Fresh values per case. Oracle: the host neither panics, aborts nor hangs; any Python exception is acceptable. Every case is non-trivial.",
+			"every binary/augmented/unary operator, subscript, slice, attribute, call, iteration, format and 30 two-operand statement forms over the universe squared, through the Go API and as compiled source; 37 consumers (sort/sorted/min/max with key, map/filter/zip/enumerate, comprehensions, for, unpacking, star-call, slice assignment from an iterator, suspended iterators and generators) x callbacks that shrink, empty, grow, replace or sort the very container being processed (list, dict, set). Fresh values per case. Oracle: the host neither panics, aborts nor hangs; any Python exception is acceptable. Every case is non-trivial.",
 		Run:         c10Run,
 		HangAfterS:  25,
 		Assumptions: []string{"legitimately unbounded work is excluded by construction: pow/**/<< with astronomically large exponents; input() (blocks on stdin)", "side effects are confined to the worker's scratch directory; stdin is empty"},
